@@ -429,7 +429,18 @@ impl<T: Transport, E: UtpEnvironment> Dispatcher<T, E> {
     }
 
     fn get_next_free_conn_id(&mut self, addr: SocketAddr) -> SeqNr {
-        while self.streams.contains_key(&(addr, self.next_connection_id)) {
+        // A connection uses two adjacent ids (we receive on id, send on id + 1), and so does every
+        // live connection with this peer, in either direction. Keep clear of every id that could be
+        // mistaken for one of theirs on either side, not only of our own receive keys: otherwise
+        // e.g. our SYN carries the id we already send with on a connection the peer opened to us,
+        // and the peer hands it to that connection.
+        let clashes = |streams: &HashMap<StreamRecvKey, UnboundedSender<UtpMessage>>, id: SeqNr| {
+            streams.contains_key(&(addr, id - 1))
+                || streams.contains_key(&(addr, id))
+                || streams.contains_key(&(addr, id + 1))
+                || streams.contains_key(&(addr, id + 2))
+        };
+        while clashes(&self.streams, self.next_connection_id) {
             self.next_connection_id += 2;
         }
         self.next_connection_id
